@@ -135,7 +135,10 @@ int main(int argc, char **argv)
 			for (int ret = 0; ret < 2; ret++) {
 				/* programs returning non-zero: only for a subset (every 7th) to bound the work */
 				if (ret && (pidx % 7)) continue;
-				pg.ret = ret ? 1 + (int)(pidx % 3) * 100 - (pidx % 2 ? 300 : 0) : 0;	/* positive and negative non-zero values */
+				{	/* non-zero values of every width: small, negative, multiples of 256 and 65536, the int extremes */
+					static const int RV[] = { 1, -1, 2, 255, 256, -256, 512, 65536, -65536, 16777216, INT32_MIN, INT32_MAX, 128, -128, 0x7fffff00, 0x40000000 };
+					pg.ret = ret ? RV[(pidx / 7) % 16] : 0;
+				}
 				for (int prov = 0; prov < 2; prov++) for (int pol = 0; pol < 32; pol++) for (int t = 0; t < NTOK; t++) {
 					jwt_checker_t *c;
 					int rc, expect = base[prov][pol][t];
